@@ -169,13 +169,20 @@ def run(ctx, anchors=None):
                 names = {x["n"] for x in walk(c) if x["k"] == "ref"}
                 if t and {"pipe_in", "pipe_out"} <= names:
                     ret0.append(n)
-    if len(ret0) != 1:
-        raise AnalysisBroken("R08: piped `return 0` of main not found (found %d)" % len(ret0))
-    ret0 = ret0[0]
     runs = [n for n in main.nodes() if n["k"] == "call" and n.get("n") == A["run"]]
     if len(runs) != 1:
         raise AnalysisBroken("R08: expected one call of %s in main, found %d" % (A["run"], len(runs)))
     runc = runs[0]
+    # the success exit: the piped `return 0` that the succeeding edge of the run reaches
+    ok_edge = [s_ for (a_, s_, c_, t_) in cfg.cond_edges() if c_ == runc["id"] and t_]
+    if ok_edge:
+        reach_ok = cfg.reachable_from(ok_edge[0])
+        on_ok = [n for n in ret0 if cfg.position(n) and cfg.position(n)[0] in reach_ok]
+        if on_ok:
+            ret0 = on_ok
+    if len(ret0) != 1:
+        raise AnalysisBroken("R08: piped success `return 0` of the driver not found (found %d)" % len(ret0))
+    ret0 = ret0[0]
 
     # ---- R08.1
     exc = ExcEngine(prog)
